@@ -104,3 +104,36 @@ func verifC16_seq() {
 	c.CloseNow()
 	vObserve("c16", vWireSummary(t.out), seq)
 }
+
+// C16.guard: one step of writeFrame from any state in which a Close frame has already been handed to writeFrame: nothing
+// but (the one) Close frame may be emitted. Together with frame atomicity (C05.frame-atomic: frames are totally ordered
+// by writeFrameMu) this is the statement that holds for every interleaving of writers, pingers and closers.
+func verifC16_guard() {
+	client := vParam("client", 1) == 1
+	vInstallRand()
+	t := vNewTransport(nil)
+	t.endMode = vEndBlock
+	c := vNewConn(t, client, vCopts(vParam("deflate", 0)), 16, 32)
+	// reach the state through the public API: a Close frame goes out (the peer never answers: writeClose only)
+	err := c.writeClose(StatusNormalClosure, "bye")
+	vAssert(err == nil, "C16.guard.setup")
+	before := len(t.out)
+	vReach("C16.guard.close-sent")
+	fin := vBool("fin")
+	fl := vBool("flate")
+	op := opcode(vU8("opcode") & 0x0f)
+	vAssume(op != opClose)
+	n, werr := c.writeFrame(vBG, fin, fl, op, vBytes("p", vChoose("n", 4)))
+	c.bw.Flush()
+	vAssert(vAnd(werr != nil, n == 0), "C16.guard.frame-refused")
+	vAssert(len(t.out) == before, "C16.guard.nothing-emitted")
+	// a second Close frame is refused as well
+	c.writeClose(StatusGoingAway, "again")
+	c.bw.Flush()
+	vAssert(len(t.out) == before, "C16.guard.no-second-close")
+	// and the API level calls fail
+	vAssert(c.Write(vBG, MessageText, []byte("x")) != nil, "C16.guard.write-fails")
+	vAssert(len(t.out) == before, "C16.guard.nothing-emitted")
+	c.CloseNow()
+	vObserve("guard", len(t.out))
+}
